@@ -10,6 +10,7 @@ entry := [M,dens] | [P,dens,N|vec,mult]         mult := [U] | [S,rat] | [V,vec] 
 mergeall lib...  -> [T|F,...] lib        (every merge attempted, rejected ones keep their partial mutations)
 mergeallchi lib...  -> as mergeall, file-wide chi included (fisFlag must be absent / 0 / 1)
 mergeseqA / mergeallA / mergeallchiA: the same over Lib.mergeAtomic (merge with rollback, candidate fix)
+function level: propset p N|nat | metamerge meta meta | filemetamerge fm fm | collmerge slots slots | nucmerge nuc nuc
 wf lib...           -> T|F per library: Lib.WFB (domain of the merge theorems) and no file-wide chi
 macromult [[entry,T|F],...]              (flag: found in multLib)
 creator ng minDens T|F [[name,dens],...] [[name,[N|vec x9],N|vec,N|mat,N|mat,N|mat],...]
@@ -180,6 +181,19 @@ def answer : List String → String
       if !(ls.all Lib.fisDomain) then some "out-of-domain" else
       let r := mergeAllAtomic Lib.empty ls
       some (showList showBool r.1 ++ " " ++ showLib r.2)
+  | ["propset", cur, v] => orBad do
+      some (showOpt showProp (Prop'.set (← prop? cur) (← optVal? v)))
+  | ["metamerge", a, b] => orBad do
+      some (showOpt showMeta (Meta.merge [] (← meta? a) (← meta? b)))
+  | ["filemetamerge", a, b] => orBad do
+      some (showOpt showFileMeta (FileMeta.mergeChi (← fileMeta? a) (← fileMeta? b)))
+  | ["collmerge", a, b] => orBad do
+      some (showOpt showColl (Coll.merge (Coll.ofSlots (← slots? a)) (Coll.ofSlots (← slots? b))))
+  | ["nucmerge", a, b] => orBad do
+      let x ← nuc? a
+      let y ← nuc? b
+      let r := Nuc.merge x.2 y.2
+      some (showBool r.1 ++ " " ++ showNuc (x.1, r.2))
   | "wf" :: libs => orBad do
       let ls ← libs.mapM lib?
       some (" ".intercalate (ls.map (fun l => showBool (l.WFB && l.inDomain))))
